@@ -17,24 +17,32 @@ theorem srgb_dec_eq (v : ℝ) : F64.compute_srgb_gamma_expanded v =
   simp only [F64.compute_srgb_gamma_expanded, FltReal.lit_eq, FltReal.le_eq, FltReal.pow_eq,
     decide_eq_true_eq]
   norm_num
+  -- indifferent to the order of commutative operands in the source
+  try (split_ifs <;> ring)
 
 theorem srgb_enc_eq (v : ℝ) : F64.apply_srgb_gamma_correction v =
     if v ≤ 0.0031308 then v * 12.92 else 1.055 * v ^ ((1 : ℝ) / 2.4) - 0.055 := by
   simp only [F64.apply_srgb_gamma_correction, FltReal.lit_eq, FltReal.le_eq, FltReal.pow_eq,
     decide_eq_true_eq]
   norm_num
+  -- indifferent to the order of commutative operands in the source
+  try (split_ifs <;> ring)
 
 theorem argb_dec_eq (v : ℝ) : F64.compute_argb_gamma v =
     if v ≤ 0 then 0 else v ^ ((563 : ℝ) / 256) := by
   simp only [F64.compute_argb_gamma, FltReal.lit_eq, FltReal.le_eq, FltReal.pow_eq,
     decide_eq_true_eq]
   norm_num
+  -- indifferent to the order of commutative operands in the source
+  try (split_ifs <;> ring)
 
 theorem argb_enc_eq (v : ℝ) : F64.compute_argb_gamma_expanded v =
     if v ≤ 0 then 0 else v ^ ((1 : ℝ) / ((563 : ℝ) / 256)) := by
   simp only [F64.compute_argb_gamma_expanded, FltReal.lit_eq, FltReal.le_eq, FltReal.pow_eq,
     decide_eq_true_eq]
   norm_num
+  -- indifferent to the order of commutative operands in the source
+  try (split_ifs <;> ring)
 
 theorem srgb_dec_lin {v : ℝ} (h : v ≤ 0.04045) : F64.compute_srgb_gamma_expanded v = v / 12.92 := by
   rw [srgb_dec_eq, if_pos h]
